@@ -328,8 +328,10 @@ the machine:
   closing side has unread data, the kernel sends RST instead and queued data is discarded — outside the model.)
 * **Writes are not time-bounded.** A `Write` on the outbound connection blocks until the data is accepted; no
   deadline makes a later write fail.
-* Consequently the tunnel handlers must not set linger, deadlines, buffer sizes, keep-alive options or
-  half-close a connection. `Props/C09Facts.lean` (`no_socket_options_in_tunnel_handlers`) pins the complete list
+* Consequently the tunnel handlers must not set linger, deadlines, buffer sizes or keep-alive options; the one
+  half-close they perform is `CloseWrite` on the upstream connection after the client→upstream copy has ended
+  with EOF (it queues a FIN behind the forwarded data: the upstream reads everything, then EOF — event `c2uEOF`
+  of the tunnel machine in mode `clientHalf`). `Props/C09Facts.lean` (`no_socket_options_in_tunnel_handlers`) pins the complete list
   of such calls in `tcp_proxy.go`, `sni_proxy.go`, `tcp_dynamic_proxy.go`, `proxy_proto.go`, `copy_buffer.go`
   (none), in `ws_handler.go` (the 1 s read deadline around the handshake read, cleared before the copy phase)
   and the shape of `server.go`'s `conn` wrapper (per-call read/write deadlines only when `ReadTimeout`/
@@ -337,7 +339,8 @@ the machine:
   the contract on sockets: a large final burst towards a slowly reading upstream followed by the client's
   close, and client data sent long after the configured dial timeout. -/
 
-/-- Do the tcp tunnel handlers touch socket options, deadlines or half-close (pinned by `C09Facts`)? -/
+/-- Do the tcp tunnel handlers touch socket options or deadlines, or half-close anything but the upstream after
+the client's EOF (pinned by `C09Facts`)? -/
 def tunnelHandlersTouchSocketOptions : Bool := false
 
 /-! ## The two-direction tunnel as a state machine -/
@@ -361,7 +364,7 @@ deriving Repr, BEq, DecidableEq
 
 /-- The mode of the code in `/repo`, pinned to the source by `C09Facts.tunnel_teardown_mode` (the events of the
 client→upstream goroutine). -/
-def codeMode : Mode := .firstEnds
+def codeMode : Mode := .clientHalf
 
 structure Tun where
   pre : Bytes := []            -- written to the upstream before the copy phase (PROXY line, hello)
@@ -463,6 +466,8 @@ inductive CloseOrder where
   | client        -- client closes; upstream closes when it sees EOF
   | upstream      -- upstream closes
   | halfClose     -- client half-closes; the upstream answers `reply` when it sees EOF, then closes
+  | halfIdle      -- client half-closes; the upstream answers `reply` when it sees EOF and stays idle (never
+                  -- finishes); when the reply has arrived the server closes the client connection
 deriving Repr, BEq, DecidableEq
 
 /-- History of the closing phase for the given order, with every proxy step taken as soon as it is
@@ -475,9 +480,13 @@ def closeHistory (order : CloseOrder) (reply : Bytes) (m : Mode) : List Ev :=
     -- the upstream replies only after it has seen EOF; in mode firstEnds that is after `finish`, in the other
     -- modes the first `finish` is not enabled
     [.clientFin, .c2uEOF, .finish, .upSend reply, .fwdU2C, .upFin, .u2cEOF, .finish]
+  | .halfIdle, _ => [.clientFin, .c2uEOF, .finish, .upSend reply, .fwdU2C]
 
 def scenario (m : Mode) (pre cstream ustream reply : Bytes) (order : CloseOrder) : Tun :=
-  run m (Tun.init pre)
+  let t := run m (Tun.init pre)
     ([.clientSend cstream, .upSend ustream, .fwdC2U, .fwdU2C] ++ closeHistory order reply m)
+  match order with
+  | .halfIdle => serverClose m t
+  | _ => t
 
 end Fabio.Model.C09
